@@ -54,6 +54,11 @@ CHECKS = {
     technique="TLA+ enumeration of the configuration x endpoint-state x junk-class product with the no-effect postcondition (HopJunk.tla, states named after HopHandshake/HopTransport); every edge executed on real endpoints in child processes with concrete datagrams (all truncation lengths, field mutations, declared-length values, typed random bodies with and without the live session id); liveness probes recorded and judged by TLC",
     text="TLC enumerates 334 (configuration, state, derivation, base message) edges over 4 server configurations (one certificate; three virtual hosts with literal/wildcard/catch-all patterns resolved through hopserver.VirtualHosts.Match; hidden with one and with three certificates) and 8 endpoint states (server idle / handshake pending / established / session closed; client waiting for ServerHello / ServerAuth / hidden response / open). A driver reaches each state with real endpoints, captures genuine messages from the same server, and delivers ~93k datagrams per run (every truncation length of every genuine message, per-field byte flips, every interesting declared length, extension, 21 type bytes x 20 lengths of random bodies with and without the live session id, 0-3 byte datagrams) from the address owning the state and from a foreign address; after every 40 datagrams an honest handshake from a fresh address (rotating over the virtual hosts) and a two-way message on the established session must succeed. Each group is a child process; a crash is attributed to the datagram flushed to the log before delivery. The check fails (exit 2) if any spec edge was not executed.",
     note="fault_enumeration: inside a class bytes are enumerated by truncation/mutation or sampled by seed - it is not a coverage-guided fuzzer. A handshake in progress from the same source address may be lost (allowed by the specification). Trusted: simwire, the child-process attribution."),
+ "C18": dict(
+    level="model_checking", ref="§3 C18",
+    technique="TLA+ description of the wire formats (fields, prefix widths, maxima; Representable) with the format-level round-trip checked by TLC over boundary lengths; real encoders/decoders exercised at every boundary and on mutated valid encodings, each result recorded and judged by TLC against Representable",
+    text="HopWire.tla gives, per codec, the variable fields with their length-prefix width and documented maximum; TLC checks that a length survives its prefix iff it is representable (so an encoder that does not reject necessarily mis-frames). Drivers run the real codecs - common string, certificate name / id chunk / certificate (all types incl. unknown), authgrant intent (all grant types incl. unknown and the unimplemented port-forward ones), denial, proxy target info and failure, key text formats; and through add-only overlay tests the unexported tube frame and initiate frame (64 flag combinations x 9 data lengths), execution request (command/term lengths up to 200000, flags, window size) and port-forward address packet (TCP/UDP/unix, ports across 32767/32768/65535, IPv6) - at lengths {0,1,2,100,251..257,300,511..513,1000,65535,65536,...}. Each event carries the abstract value, encoder outcome (ok/err/panic), decoder outcome and equality; mutated valid encodings that still decode must be stable under decode-encode-decode. TLC judges every event.",
+    note="Trusted: TLC, the drivers' value generators and equality (times compared by Unix seconds, fingerprints not compared). 4-byte prefixes treated as unbounded. The user-authentication request codec needs a live reliable tube and is exercised by the C11 tube drivers instead."),
 }
 
 NOT_YET = {}
